@@ -442,6 +442,7 @@ def run_job(job):
         ref, res, v = run_scenario(sc, scratch)
         st["runs"] += 1
         st["events"] += len(sc["ops"])
+        st.setdefault("evdigs", []).append(short([ref, res], 20))
         bump("route=" + sc["route"])
         bump("kind=" + sc["model"]["meta"]["kind"])
         if ref.get("build_error"):
